@@ -223,6 +223,10 @@ func (s *Session) runOne(ctx context.Context, worker string, p parsedStmt) (*Res
 				return nil, err
 			}
 			s.waitingOn = w.on
+			w.txnID() // remember which transaction of the holder blocks us, now, under the mutex
+			if worker != "" {
+				db.waiting[worker] = w
+			}
 			stop := make(chan struct{})
 			if ctx != nil && ctx.Done() != nil {
 				go func() {
@@ -245,6 +249,7 @@ func (s *Session) runOne(ctx context.Context, worker string, p parsedStmt) (*Res
 			}
 			close(stop)
 			s.waitingOn = nil
+			delete(db.waiting, worker)
 			db.mu.Unlock()
 			if g != nil && worker != "" {
 				g.Unblocked(worker, s.id)
@@ -270,6 +275,18 @@ func (db *DB) stillBlocked(w *waitErr) bool {
 		return l != nil && l.sess == on
 	}
 	return on.txn != nil && on.txn.state == txActive && on.txn.id == w.txnID()
+}
+
+// WillStayBlocked reports whether the statement of `worker`, parked on a lock, is still blocked now
+// (used by schedulers to know which parked workers are about to come back to the gate).
+func (db *DB) WillStayBlocked(worker string) bool {
+	db.mu.Lock()
+	defer db.mu.Unlock()
+	w := db.waiting[worker]
+	if w == nil {
+		return false
+	}
+	return db.stillBlocked(w)
 }
 
 func (w *waitErr) txnID() int64 {
